@@ -39,6 +39,10 @@ EFFECTING = {
     "pczt::orchard::Spend": {"nullifier", "rk"},
     "pczt::orchard::Output": {"cmx", "ephemeral_key", "enc_ciphertext", "out_ciphertext"},
     "pczt::orchard::Bundle": {"flags", "value_sum", "anchor", "note_version"},
+    "zcash_transparent::pczt::Input": {"prevout_txid", "prevout_index", "sequence",
+                                       "required_time_lock_time", "required_height_lock_time",
+                                       "value", "script_pubkey"},
+    "zcash_transparent::pczt::Output": {"value", "script_pubkey"},
 }
 # effecting fields that are functions of other PCZT fields (documented on resolve_fields)
 RESOLVABLE_SPEC = {("pczt::orchard::Action", "cv_net"), ("pczt::orchard::Output", "cmx"),
@@ -106,10 +110,17 @@ def main(tier):
     chk.rule("MERGE-cover", "every field takes part in merge with a conflict edge", floor=75)
     chk.rule("MERGE-pair", "comparisons / merges pair a field with its own counterpart", floor=75)
     chk.rule("ROLES", "roles do not write effecting fields (two admitted shapes)", floor=8)
+    chk.rule("MERGE-carry", "optional data and the value sum are carried over from the other copy",
+             floor=4)
+    chk.rule("XWIRE", "struct fields are initialised from the same-named source field", floor=150)
+    chk.rule("OMIT", "bundle-omission predicates of the v2 encoding consider every field", floor=2)
     chk.rule("control", "positive controls", floor=2)
-    w = zf.World(extract.facts_dir("all"), ["pczt"])
+    w = zf.World(extract.facts_dir("all"), ["pczt", "zcash_transparent"])
     merge_rules(chk, w)
+    merge_carry_rules(chk, w)
     role_rules(chk, w)
+    xwire_rules(chk, w)
+    omit_rules(chk, w)
     chk.finish()
 
 
@@ -306,12 +317,20 @@ def place_owner(w, body, place):
 
 
 def role_rules(chk, w):
-    pczt_fns = {f.id: f for f in w.fns.values() if f.crate.name == "pczt" and "::tests::" not in f.p}
+    pczt_fns = {f.id: f for f in w.fns.values()
+                if (f.crate.name == "pczt" or "zcash_transparent::pczt" in f.p)
+                and "::tests::" not in f.p and "::testing" not in f.p}
     role_of = {}
+    TROLE = {"spend_finalizer": "spend_finalizer", "signer": "signer", "updater": "updater",
+             "verify": "verifier", "tx_extractor": "tx_extractor"}
     for f in pczt_fns.values():
         m = re.search(r"pczt::roles::(\w+)", f.p)
         if m:
             role_of[f.id] = m.group(1)
+            continue
+        m = re.search(r"zcash_transparent::pczt::(\w+)", f.p)
+        if m and m.group(1) in TROLE:
+            role_of[f.id] = TROLE[m.group(1)]
     # reachability per role inside the pczt crate (closures included)
     reach = {}
     for fid, role in role_of.items():
@@ -504,3 +523,222 @@ def _local_is_clone(du, local):
     whole = [d for d in du.defs.get(local, []) if d[0] in ("stmt", "call")]
     return len(whole) == 1 and whole[0][0] == "call" and whole[0][2].callee.indirect is None and \
         whole[0][2].callee.target_p().endswith("::clone")
+
+
+# ---------------------------------------------------------------------- MERGE-carry
+def merge_carry_rules(chk, w):
+    for name in MERGE_FNS:
+        try:
+            f = w.fn(name)
+        except KeyError:
+            continue
+        body = f.body
+        du = defuse.DefUse(body)
+        self_adt = f.self_ty
+        merged = set()
+        compared = set()
+        for bb, t in body.calls():
+            if t.callee.indirect is not None:
+                continue
+            n = t.callee.target_p()
+            if re.search(r"::(merge_optional|merge_map)$", n) and len(t.args) >= 2:
+                pa, _ = named_path(du.origin(t.args[0]))
+                merged.add(pa)
+            elif re.search(r"core::cmp::PartialEq::(eq|ne)$", t.callee.p or "") and len(t.args) == 2:
+                oa, ob = du.origin(t.args[0]), du.origin(t.args[1])
+                pa, _ = named_path(oa)
+                pb, _ = named_path(ob)
+                # only comparisons of the PAYLOADS (made when both copies carry the field) leave
+                # the None/Some case open; `self.f != f` on the Options themselves is a conflict
+                if pa == pb and pa and ("'variant'" in repr(oa) or "'variant'" in repr(ob)):
+                    compared.add(pa)
+        # stores into self.<field> whose value comes from the other copy's same field
+        carried = set()
+        for blk in body.blocks:
+            for s in blk.stmts:
+                if s.kind == "=" and s.place.proj and s.rv.kind == "use":
+                    pd, _ = named_path(du.origin_place(s.place))
+                    osrc = du.origin(s.rv.ops[0])
+                    if osrc[0] == "agg" and osrc[1] == "core::option::Option::Some" and osrc[2]:
+                        osrc = osrc[2][0]
+                    ps, _ = named_path(osrc)
+                    if pd and pd == ps:
+                        carried.add(pd)
+                elif s.kind == "=" and s.place.proj and s.rv.kind == "agg" and \
+                        s.rv.agg[0] == "adt" and s.rv.agg[1] == "core::option::Option" and s.rv.ops:
+                    pd, _ = named_path(du.origin_place(s.place))
+                    ps, _ = named_path(du.origin(s.rv.ops[0]))
+                    if pd and pd == ps:
+                        carried.add(pd)
+        for path, owner, kind in leaf_paths(w, self_adt):
+            if kind != "leaf":
+                continue
+            ty = dict(struct_fields(w, owner)).get(path[-1], "")
+            optional = ty.startswith("core::option::Option<")
+            if not optional or path in merged:
+                continue
+            label = "%s.%s" % (self_adt.split("::", 1)[1], ".".join(path))
+            if path in compared and path not in carried:
+                chk.fail("MERGE-carry", name + "/" + label, "optional field `%s` is only compared when "
+                         "both copies carry it and is never taken over from the other copy: combining "
+                         "a copy that lacks it (left) with one that carries it (right) drops it, so the "
+                         "result depends on the order of combination" % ".".join(path), f.span.loc())
+            elif path in compared:
+                chk.ok("MERGE-carry", "%s is compared and carried over from the other copy" % label,
+                       sample=True)
+        # value_sum follows adopted items: after extending spends/outputs/actions from the other
+        # copy every successful return passes a store to value_sum
+        has_vs = any(p == ("value_sum",) for p, _o, _k in leaf_paths(w, self_adt))
+        if not has_vs:
+            continue
+        vs_blocks = set()
+        for bi, blk in enumerate(body.blocks):
+            for s in blk.stmts:
+                if s.kind == "=" and s.place.proj and s.place.proj[-1] == ".value_sum":
+                    src, _ = named_path(du.origin(s.rv.ops[0])) if s.rv.kind == "use" else ((), None)
+                    if src == ("value_sum",):
+                        vs_blocks.add(bi)
+        ext = [(bb, t) for bb, t in body.calls() if t.callee.indirect is None and
+               re.search(r"::extend$", t.callee.target_p())]
+        n = 0
+        for bb, t in ext:
+            o = defuse.show(du.origin(t.args[0]))
+            which = [x for x in ("spends", "outputs", "actions") if "." + x in o]
+            if not which or t.target is None:
+                continue
+            n += 1
+            res = S.explore(body, t.target, {}, avoid=tuple(vs_blocks), du=du,
+                            facts=S.dominating_facts(body, du, bb))
+            bad = [rv for _b, rv in res.returns if rv != "variant:None"]
+            if bad or res.too_big:
+                chk.fail("MERGE-carry", "%s/value_sum-after-%s#%d" % (name, which[0], n),
+                         "after taking over the other copy's extra %s the merge can succeed without "
+                         "taking over its value_sum: the combined bundle's value balance no longer "
+                         "matches its contents" % which[0], t.span.loc())
+            else:
+                chk.ok("MERGE-carry", "%s: adopting extra %s is always followed by adopting value_sum"
+                       % (name.split("::")[1], which[0]), sample=True)
+
+
+# ---------------------------------------------------------------------- XWIRE
+WRAPPERS = re.compile(r"::(clone|cloned|copied|as_ref|as_deref|as_mut|deref|to_vec|to_owned|into|"
+                      r"borrow|map|as_slice|to_bytes|into_iter|iter|collect|unwrap_or_default|"
+                      r"from|try_from|try_into|ok_or|ok_or_else|transpose|map_err|and_then|branch|"
+                      r"to_string|as_bytes|into_inner|to_le_bytes|from_bits_truncate|bits)$")
+
+
+def terminal_name(o, depth=0):
+    """name of the field or getter an origin ends in (through value-preserving wrappers)"""
+    while o and depth < 24:
+        depth += 1
+        k = o[0]
+        if k == "field":
+            n = o[2][1:]
+            if n.isdigit():
+                o = o[1]
+                continue
+            return n
+        if k in ("ref", "deref", "variant", "proj"):
+            o = o[1]
+            continue
+        if k == "cast":
+            o = o[2]
+            continue
+        if k == "call":
+            last = o[1].rsplit("::", 1)[-1]
+            if WRAPPERS.search(o[1]) and o[2]:
+                o = o[2][0]
+                continue
+            if len(o[2]) == 1:
+                return last      # getter-like: one receiver argument
+            return None
+        return None
+    return None
+
+
+def xwire_rules(chk, w):
+    n = 0
+    for f in sorted(w.fns.values(), key=lambda f: f.p):
+        if not (f.crate.name == "pczt" or "zcash_transparent::pczt" in f.p):
+            continue
+        if "::tests::" in f.p or "::testing" in f.p or f.derived:
+            continue
+        du = None
+        ordn = {}
+        for blk in f.body.blocks:
+            if blk.cleanup:
+                continue
+            for s in blk.stmts:
+                if s.kind != "=" or s.rv.kind != "agg" or s.rv.agg[0] != "adt":
+                    continue
+                adt, _variant, fnames = s.rv.agg[1], s.rv.agg[2], s.rv.agg[3]
+                if len(fnames) < 2 or any(x.isdigit() for x in fnames):
+                    continue
+                if not (adt.startswith("pczt::") or adt.startswith("zcash_transparent::pczt")
+                        or adt.startswith("orchard::pczt") or adt.startswith("sapling_crypto::pczt")):
+                    continue
+                du = du or defuse.DefUse(f.body)
+                fset = set(fnames)
+                for fname, op in zip(fnames, s.rv.ops):
+                    g = terminal_name(du.origin(op))
+                    if g is None:
+                        continue
+                    n += 1
+                    if g != fname and g in fset:
+                        k0 = "%s/%s.%s" % (f.p, adt.rsplit("::", 1)[-1], fname)
+                        ordn[k0] = ordn.get(k0, 0) + 1
+                        chk.fail("XWIRE", "%s#%d" % (k0, ordn[k0]),
+                                 "field `%s` of %s is initialised from `%s`, which is the name of "
+                                 "another field of the same struct (cross-wired; it type-checks because "
+                                 "both have the same type)" % (fname, adt, g), s.span.loc())
+                    else:
+                        chk.ok("XWIRE", "%s: %s.%s <- %s" % (f.p.rsplit("::", 1)[-1],
+                                                            adt.rsplit("::", 1)[-1], fname, g))
+    chk.analysed["xwire_field_initialisers"] = n
+
+
+# ---------------------------------------------------------------------- OMIT
+def omit_rules(chk, w):
+    """a predicate that decides whether a whole bundle may be left out of the v2 encoding must
+    take every field of the bundle into account"""
+    n = 0
+    for f in sorted(w.fns.values(), key=lambda f: f.p):
+        if f.crate.name != "pczt" or "::tests::" in f.p or f.is_closure():
+            continue
+        if f.output != "bool" or not re.search(r"::v2::", f.p):
+            continue
+        for i in range(f.body.argc):
+            ty = re.sub(r"^&('\w+ )?(mut )?", "", f.body.local_ty(i + 1))
+            fields = [x for x, _t in struct_fields(w, ty)]
+            if not ty.startswith("pczt::") or len(fields) < 4:
+                continue
+            # whole-struct comparison?
+            du = defuse.DefUse(f.body)
+            whole = False
+            for bb, t in f.body.calls():
+                if t.callee.indirect is None and re.search(r"core::cmp::PartialEq::(eq|ne)$", t.callee.p or ""):
+                    if (t.callee.self_ty or "").replace("&", "") == ty:
+                        whole = True
+            read = set()
+            for blk in f.body.blocks:
+                for s in blk.stmts:
+                    if s.kind != "=":
+                        continue
+                    places = [o.place for o in s.rv.ops if o.kind in ("copy", "move")]
+                    if s.rv.kind in ("ref", "disc"):
+                        places.append(s.rv.place)
+                    for pl in places:
+                        pth, base = named_path(du.origin_place(pl))
+                        if pth and pth[0] in fields:
+                            read.add(pth[0])
+            n += 1
+            missing = [x for x in fields if x not in read]
+            if whole or not missing:
+                chk.ok("OMIT", "%s considers %s" % (f.p, "the whole struct (derived equality)" if whole
+                                                     else "all %d fields" % len(fields)), sample=True)
+            else:
+                chk.fail("OMIT", f.p, "omission predicate ignores field(s) %s of %s: a bundle that "
+                         "differs from the default only there is dropped by the v2 encoding and "
+                         "parses back with default values" % (missing, ty), f.span.loc())
+            break
+    chk.analysed["omission_predicates"] = n
